@@ -19,6 +19,7 @@ mod bisync_w;
 mod serve_w;
 mod oneway_w;
 mod killer;
+mod hub_w;
 #[global_allocator]
 static GLOBAL: proto_w::Tracking = proto_w::Tracking;
 /// the CLI's modules, #[path]-included unedited from the tree under check
@@ -98,6 +99,7 @@ fn search(contract: &str, seed: u64, budget: u64) -> i32 {
     }
     if c == "bisync_crash" { return bisync_w::crash_search(false, budget > 60); }
     if c == "serve_crash" { return serve_w::crash_search(false, budget > 60); }
+    if c == "hub_sync" || c.ends_with("::hub_sync") { return hub_w::search(false); }
     if c.ends_with("run_bisync") || c == "bisync" || c.ends_with("apply") || c.ends_with("copy_atomic") || c.contains("Archive::") {
         return bisync_w::search(c, false);
     }
@@ -137,6 +139,7 @@ fn run(w: &str) -> i32 {
         "bisync-trace" => bisync_w::run_trace(w),
         "bisync-crash" => bisync_w::run_crash(w),
         "serve-crash" => serve_w::run_crash(w),
+        "hub" => hub_w::run_w(w),
         "pairid" => { match bisync_w::pair_id_injective() { Some(x) => { println!("REPRODUCED: {x}"); 1 } None => { println!("not reproduced"); 0 } } }
         "header" => proto_w::run_header(w),
         "codec" => proto_w::run_codec(w),
@@ -162,6 +165,7 @@ fn twin(name: &str, seed: u64, budget: u64) -> i32 {
         "oneway_crashes" => oneway_w::search(true, budget > 60),
         "bisync_crashes" => bisync_w::crash_search(true, budget > 60),
         "serve_crashes" => serve_w::crash_search(true, budget > 60),
+        "hub_sync_runs" => hub_w::search(true),
         "bisync_histories" => bisync_w::search_t("bisync", true, seed, budget),
         "signature_generate" => engine_w::twin_signature_generate(seed, budget),
         "signature_structure" => engine_w::twin_signature_structure(seed, budget),
